@@ -81,7 +81,7 @@ fn gen_text(rng: &mut Rng, kind: u64) -> String {
     match kind % 12 {
         0 => String::new(),
         1 => { // one long token
-            let n = if kind % 48 == 13 { 350_000 } else { rng.range(30, 400) as usize };
+            let n = if kind == 13 { 350_000 } else { rng.range(30, 400) as usize };
             let unit = *rng.pick(&["a", "é", "語", "𝒳", "ab"]);
             unit.repeat(n)
         }
